@@ -353,3 +353,24 @@ def cat_values(a, b):
     if [c for c, _ in a] != [c for c, _ in b]:
         raise ValueError("column sets differ: %r vs %r" % ([c for c, _ in a], [c for c, _ in b]))
     return [[c, va + vb] for (c, va), (_, vb) in zip(a, b)]
+
+
+# ---------------------------------------------------------------------------
+def coqchk_start(coq_dir, name):
+    """thorough tier: start `coqchk -o` on coq/props/<name>.vo (kernel re-check of the compiled theorems and everything they
+    depend on, with the list of axioms); returns the process, collect with coqchk_finish."""
+    import subprocess
+    return subprocess.Popen(["coqchk", "-silent", "-o", "-Q", os.path.join(coq_dir, "theories"), "Pq", "-Q", os.path.join(coq_dir, "props"), "", name],
+                            stdout=subprocess.PIPE, stderr=subprocess.STDOUT, cwd=os.path.join(coq_dir, "props"))
+
+
+def coqchk_finish(ctx, proc, name, timeout=1500):
+    import subprocess
+    try:
+        out = proc.communicate(timeout=timeout)[0].decode(errors="replace")
+    except subprocess.TimeoutExpired:
+        proc.kill()
+        ctx.obligation("coqchk -o props/%s.vo" % name, False, "timeout")
+        return
+    ok = proc.returncode == 0 and "* Axioms: <none>" in out and "type-in-type: <none>" in out
+    ctx.obligation("coqchk -o props/%s.vo: re-checked by the stand-alone kernel, no axioms" % name, ok, out[-600:] if not ok else "")
